@@ -103,3 +103,6 @@ PLAN["C11"]["quick"] = PLAN["C11"]["quick"] + ["conc"]
 PLAN["C11"]["thorough"] = PLAN["C11"]["thorough"] + ["conc"]
 # the cheap suites are part of the quick both-forms comparison as well
 PLAN["C18"]["quick"] = ["two", "flat", "subs", "tsubs", "fuzz", "fin", "cold13", "share", "group", "conv"]
+
+PLAN["C17"]["quick"] = PLAN["C17"]["quick"] + ["conc"]
+PLAN["C17"]["thorough"] = PLAN["C17"]["thorough"] + ["conc"]
